@@ -1,5 +1,6 @@
 import JunoModel.C12.ProofsTrace
 import JunoModel.C13.UpTo
+import JunoModel.C13.ModelTm
 /-!
 C13 — the abstract `Machine` instantiated with C12's executable transcription of juno's Tendermint
 state machine (`JunoModel.C12.Model`, compared action-for-action with the real code by C12's
@@ -9,47 +10,6 @@ Only C12's `Model` and `ProofsTrace` are imported (read-only).
 -/
 namespace Juno.C13
 open Juno
-
-def stepOfNat : Nat → Option C12.Step
-  | 0 => some .propose
-  | 1 => some .prevote
-  | 2 => some .precommit
-  | _ => none
-
-def convEntry : C12.WalEntry → Entry
-  | .start h => .start h
-  | .proposal p => .proposal p.height p.round p.sender p.validRound p.value
-  | .prevote v => .prevote v.height v.round v.sender v.id
-  | .precommit v => .precommit v.height v.round v.sender v.id
-  | .timeout s h r => .timeout s.rank h r
-
-def convAction : C12.Action → Action
-  | .writeWAL e => .writeWAL (convEntry e)
-  | .bcastProposal p => .broadcastProposal p.height p.round p.validRound p.value
-  | .bcastPrevote v => .broadcastPrevote v.height v.round v.id
-  | .bcastPrecommit v => .broadcastPrecommit v.height v.round v.id
-  | .schedule s h r => .scheduleTimeout s.rank h r
-  | .commit p => .commit p.height p.value
-  | .triggerSync s e => .triggerSync s e
-
-/-- The call the driver makes for an input; a timeout with an unknown step value is answered with
-`nil` by `ProcessTimeout`'s `switch` (no call into the rules). -/
-def convInput : Input → Option C12.Input
-  | .start => some (.start 0)
-  | .proposal h r s vr v => some (.proposal ⟨h, r, s, vr, v⟩)
-  | .prevote h r s id => some (.prevote ⟨h, r, s, id⟩)
-  | .precommit h r s id => some (.precommit ⟨h, r, s, id⟩)
-  | .timeout st h r => (stepOfNat st).map (fun s => .timeout s h r)
-
-/-- juno's Tendermint state machine (C12's transcription) as the driver's `Machine`. -/
-def tmMachine (env : C12.Env) (node : Nat) : Machine C12.Machine where
-  init := fun h => C12.Machine.new env node h
-  height := fun m => m.state.height
-  started := fun m => m.isHeightStarted
-  step := fun m i =>
-    match convInput i with
-    | none => (m, [])
-    | some ci => ((m.step env ci).1, (m.step env ci).2.map convAction)
 
 /-- The inputs `replay` really hands to the machine (entries that are skipped, and timeouts with an
 unknown step, are not). -/
